@@ -24,6 +24,16 @@
 (*   (TLC also shows that NoSpurious is exactly "registered before the        *)
 (*   COMPLETING write": RegAfter[i] < Parts[i], cfg MC_TxnConc_beforelast;    *)
 (*   replayed executions are judged by lookup outcomes only.)                 *)
+(* The table remembers a request under KeyOf[t] together with the request's    *)
+(* type KindOf(t) (the response is decoded as that type's response). The       *)
+(* property needs KeyOf injective on the ids in use: transaction ids are AMF0  *)
+(* numbers (any positive double) and two DISTINCT numbers are two transactions *)
+(* - fractional ids, ids 2^32 apart, adjacent doubles, doubles beyond int64.   *)
+(* Named deviation "lossy-key": the key is derived from the id by a lossy      *)
+(* conversion (integer truncation, 32-bit wrap, float32, short formatting), so *)
+(* two outstanding requests share a slot: the later registration overwrites    *)
+(* the earlier type, the first response consumes the slot (decoded as the      *)
+(* wrong type), the second finds nothing.                                      *)
 (* Peer:  P_Respond(t) once the complete request is in the transport          *)
 (*        (Dups: set of ids answered twice).                                  *)
 (* R:     R_Read reads the next response; R_Lookup looks it up under the      *)
@@ -37,6 +47,7 @@ EXTENDS Integers, Sequences, FiniteSets, TLC
 CONSTANTS Reqs,          \* sequence of transaction ids W sends, in order (an id may be used again by a later request)
           Parts,         \* Parts[i]: number of transport writes the bytes of request i take (>= 1)
           RegAfter,      \* RegAfter[i] \in 0..Parts[i]: transport writes of request i before its registration
+          KeyOf,         \* KeyOf[t]: the key under which the table remembers transaction id t (injective: the property)
           Dups,          \* ids the peer answers twice
           LookupAtomic,  \* the reader's lookup+forget is one critical section and nothing else touches the table
           FailIdx        \* positions in Reqs one of whose transport writes FAILS (that part and what follows never reaches
@@ -46,6 +57,9 @@ CONSTANTS Reqs,          \* sequence of transaction ids W sends, in order (an id
 Ids == {Reqs[i] : i \in 1..Len(Reqs)}
 \* after a failed transport write the connection's buffered writer stays failed: only the last request can fail
 ASSUME FailIdx \subseteq {Len(Reqs)}
+ASSUME DOMAIN KeyOf = Ids
+\* the two request types whose responses the library matches: odd ids are connect requests, even ones createStream
+KindOf(t) == IF t % 2 = 1 THEN "connect" ELSE "createStream"
 ASSUME Len(Parts) = Len(Reqs) /\ Len(RegAfter) = Len(Reqs)
 ASSUME \A i \in 1..Len(Reqs) : Parts[i] >= 1 /\ RegAfter[i] \in 0..Parts[i]
 
@@ -53,7 +67,7 @@ VARIABLES widx,      \* index of the request W is working on (Len+1 when done)
           wpc,       \* "idle" | "busy" (inside WritePacket) | "done" (about to return)
           wparts,    \* transport writes of the current request entered so far
           wreg,      \* the current request has been registered
-          pending,   \* set of remembered ids
+          pending,   \* the table: set of <<key, request type>>, at most one entry per key
           written,   \* ids whose bytes COMPLETELY reached the transport
           nresp,     \* id -> number of responses the peer sent
           inbox,     \* responses in flight to R
@@ -74,7 +88,7 @@ W_Call == /\ widx <= Len(Reqs) /\ wpc = "idle" /\ wpc' = "busy" /\ wparts' = 0 /
 
 W_Register ==
   /\ widx <= Len(Reqs) /\ wpc = "busy" /\ ~wreg /\ wparts = RegAfter[widx]
-  /\ pending' = pending \cup {Cur}
+  /\ pending' = {p \in pending : p[1] # KeyOf[Cur]} \cup {<<KeyOf[Cur], KindOf(Cur)>>}    \* table[key] = type
   /\ wreg' = TRUE
   /\ Log("register", Cur, 0)
   /\ UNCHANGED <<widx, wpc, wparts, written, nresp, inbox, rcur, rreset, results>>
@@ -107,10 +121,13 @@ P_Respond(t) ==
 R_Read == /\ rcur = 0 /\ ~rreset /\ inbox # <<>> /\ rcur' = Head(inbox) /\ inbox' = Tail(inbox) /\ Log("read", Head(inbox), 0)
           /\ UNCHANGED <<widx, wpc, wparts, wreg, pending, written, nresp, rreset, results>>
 
+Slot(t) == {p \in pending : p[1] = KeyOf[t]}
 R_Lookup ==
   /\ rcur # 0
-  /\ IF rcur \in pending
-     THEN /\ pending' = pending \ {rcur} /\ results' = Append(results, <<rcur, "ok">>)
+  /\ IF Slot(rcur) # {}
+     THEN /\ pending' = pending \ Slot(rcur)
+          \* the response is decoded as the response type of the request found in the slot
+          /\ results' = Append(results, <<rcur, IF <<KeyOf[rcur], KindOf(rcur)>> \in pending THEN "ok" ELSE "wrongtype">>)
           /\ rreset' = (~LookupAtomic /\ pending' = {})
      ELSE /\ pending' = pending /\ results' = Append(results, <<rcur, "fail">>) /\ rreset' = rreset
   /\ rcur' = 0 /\ Log("lookup", rcur, 0)
@@ -131,6 +148,8 @@ NthResult(t, n) == LET idx == {k \in 1..Len(results) : results[k][1] = t} IN
 NoSpurious == \A t \in Ids : NthResult(t, 1) # "fail"
 \* no response is matched twice
 MatchOnce  == \A t \in Ids : NthResult(t, 2) \in {"none", "fail"}
+\* a matched response is decoded as the response type of ITS request
+RightType  == \A k \in 1..Len(results) : results[k][2] # "wrongtype"
 \* the rule that makes NoSpurious hold whatever the number of transport writes of a request:
 \* no byte of a request is in the transport before the request is remembered
 RegisterFirst == (wpc = "busy" /\ wparts > 0) => wreg
@@ -141,7 +160,8 @@ AllAnswered == \A t \in Ids : nresp[t] = (IF t \in Dups THEN 2 ELSE 1)
 \* nothing is lost: at quiescence every request that reached the transport and was not answered is still
 \* remembered, and nothing else is - except that a request whose write failed may leave its id remembered
 FailedIds == {Reqs[i] : i \in FailIdx \cap (1..Len(Reqs))}
-NoLoss == Quiescent => /\ {t \in written : nresp[t] = 0} \subseteq pending
-                       /\ pending \subseteq ({t \in Ids : nresp[t] = 0} \cup FailedIds)
+PendingKeys == {p[1] : p \in pending}
+NoLoss == Quiescent => /\ {KeyOf[t] : t \in {u \in written : nresp[u] = 0}} \subseteq PendingKeys
+                       /\ PendingKeys \subseteq {KeyOf[t] : t \in ({u \in Ids : nresp[u] = 0} \cup FailedIds)}
 Done == Quiescent /\ AllAnswered
 =============================================================================
